@@ -177,6 +177,43 @@ def drop_trace_macros(text, base_line, notes, rel):
 PARAMS_FILE = os.path.join(os.path.dirname(os.path.dirname(os.path.abspath(__file__))), 'contracts', 'PARAMS.json')
 _PARAMS = None
 RECORD_PARAMS = {}
+# the text (stripped lines, after the listed normalisations) of every function under contract on the pinned tree: proof
+# hints are attached to lines of THIS text; when a line is gone from the current source its position is carried over by
+# a line diff (ANCHOR-DIFF)
+FNTEXT_FILE = os.path.join(os.path.dirname(os.path.dirname(os.path.abspath(__file__))), 'contracts', 'FNTEXT.json')
+_FNTEXT = None
+RECORD_FNTEXT = {}
+
+
+def pinned_fntext():
+    global _FNTEXT
+    if _FNTEXT is None:
+        try:
+            _FNTEXT = json.load(open(FNTEXT_FILE))
+        except Exception:
+            _FNTEXT = {}
+    return _FNTEXT
+
+
+def carry_anchor(pinned_lines, cur_lines, anchor, k, kind):
+    """position (index into cur_lines, 'at start of that line') for a hint anchored before/after the k-th line `anchor`
+    of the pinned text, or None"""
+    import difflib
+    idxs = [i for i, t in enumerate(pinned_lines) if t == anchor]
+    if not idxs or (k is None and len(idxs) != 1) or (k is not None and k > len(idxs)):
+        return None
+    idx = idxs[0] if k is None else idxs[k - 1]
+    sm = difflib.SequenceMatcher(None, pinned_lines, cur_lines, autojunk=False)
+    for tag, i1, i2, j1, j2 in sm.get_opcodes():
+        if i1 <= idx < i2:
+            if tag == 'equal':
+                j = j1 + (idx - i1)
+                return j if kind == 'before' else j + 1
+            if tag == 'replace':
+                return j1 if kind == 'before' else j2
+            if tag == 'delete':
+                return j1
+    return None
 
 
 def expected_params():
@@ -250,6 +287,7 @@ def expand_fn(src, qual, opts, sections, tline0, notes, drop_hints=False):
     # N-11: contracts name parameters; a parameter that was merely renamed in the source (e.g. `body` -> `_body`) is
     # renamed back, so that the change reaches the verifier instead of ending in a front-end error
     key = '%s::%s' % (src.rel, qual)
+    RECORD_FNTEXT[key] = [ln.strip() for ln in text.split('\n')]
     actual = param_names(text)
     RECORD_PARAMS[key] = actual
     exp = expected_params().get(key)
@@ -415,17 +453,27 @@ def expand_fn(src, qual, opts, sections, tline0, notes, drop_hints=False):
                 # annotation at the previous insertion point of this function (so ghost variables stay declared and the
                 # assertions meet the changed code).  Both are recorded; the verifier then decides.
                 import difflib
-                body_lines = [(t, o0, o1) for (t, o0, o1) in all_lines if o0 > bo and o1 <= bc + 1 and t]
-                cand = difflib.get_close_matches(s['anchor'], [t for t, _, _ in body_lines], n=2, cutoff=0.72)
-                hits = [x for x in body_lines if cand and x[0] == cand[0]]
-                if cand and len(hits) == 1 and (len(cand) == 1 or difflib.SequenceMatcher(None, s['anchor'], cand[0]).ratio() - difflib.SequenceMatcher(None, s['anchor'], cand[1]).ratio() > 0.05):
-                    a = (hits[0][1], hits[0][2])
-                    notes.append({'id': 'ANCHOR-FUZZY', 'what': 'anchor %r re-attached to %r' % (s['anchor'], cand[0]), 'file': src.rel, 'fn': qual})
+                # (1) carry the position over from the pinned text of the function by a line diff: a hint placed before
+                # (after) a statement that was rewritten goes before (after) what replaced it; a hint on a deleted
+                # statement goes where the statement was
+                pinned = pinned_fntext().get('%s::%s' % (src.rel, qual))
+                j = carry_anchor(pinned, [t for (t, _, _) in all_lines], s['anchor'], k, s['kind']) if pinned else None
+                if j is not None and j < len(all_lines) and bo < all_lines[j][1] <= bc:
+                    a = (all_lines[j][1], all_lines[j][1])
+                    notes.append({'id': 'ANCHOR-DIFF', 'what': 'anchor %r is gone; annotation carried to line %r by a line diff against the pinned text' % (s['anchor'], all_lines[j][0]), 'file': src.rel, 'fn': qual})
                 else:
-                    prev = [t[0] for t in inserts if len(t) == 3]
-                    fallback = max(prev) if prev else text.index('\n', bo) + 1
-                    a = (fallback, fallback)
-                    notes.append({'id': 'ANCHOR-LOST', 'what': 'anchor %r not found; annotation kept at the previous insertion point' % (s['anchor'],), 'file': src.rel, 'fn': qual})
+                    # (2) re-anchor on the unique most similar line inside the body
+                    body_lines = [(t, o0, o1) for (t, o0, o1) in all_lines if o0 > bo and o1 <= bc + 1 and t]
+                    cand = difflib.get_close_matches(s['anchor'], [t for t, _, _ in body_lines], n=2, cutoff=0.72)
+                    hits = [x for x in body_lines if cand and x[0] == cand[0]]
+                    if cand and len(hits) == 1 and (len(cand) == 1 or difflib.SequenceMatcher(None, s['anchor'], cand[0]).ratio() - difflib.SequenceMatcher(None, s['anchor'], cand[1]).ratio() > 0.05):
+                        a = (hits[0][1], hits[0][2])
+                        notes.append({'id': 'ANCHOR-FUZZY', 'what': 'anchor %r re-attached to %r' % (s['anchor'], cand[0]), 'file': src.rel, 'fn': qual})
+                    else:
+                        prev = [t[0] for t in inserts if len(t) == 3]
+                        fallback = max(prev) if prev else text.index('\n', bo) + 1
+                        a = (fallback, fallback)
+                        notes.append({'id': 'ANCHOR-LOST', 'what': 'anchor %r not found; annotation kept at the previous insertion point' % (s['anchor'],), 'file': src.rel, 'fn': qual})
             inserts.append((a[0] if s['kind'] == 'before' else a[1], sec_lines(s), 'line'))
     # assemble
     inserts = [t for _, t in sorted(enumerate(inserts), key=lambda it: (it[1][0], it[0]))]
@@ -777,4 +825,11 @@ if __name__ == '__main__':
         cur.update(RECORD_PARAMS)
         os.makedirs(os.path.dirname(PARAMS_FILE), exist_ok=True)
         json.dump(cur, open(PARAMS_FILE, 'w'), indent=0, sort_keys=True)
+        cur = {}
+        try:
+            cur = json.load(open(FNTEXT_FILE))
+        except Exception:
+            pass
+        cur.update(RECORD_FNTEXT)
+        json.dump(cur, open(FNTEXT_FILE, 'w'), indent=0, sort_keys=True)
     print(rs, len(mp['fns']), 'functions')
